@@ -16,9 +16,9 @@ import (
 
 // Event is one effect on a path, in program order, in the vocabulary of the outermost frame.
 type Event struct {
-	Kind   string // "append" | "store" | "call"
-	Target string // append/store: classification of the destination (field name, or "[]error", or the object name)
-	Field  string // store: field name written
+	Kind   string       // "append" | "store" | "call"
+	Target string       // append/store: classification of the destination (field name, or "[]error", or the object name)
+	Field  string       // store: field name written
 	Elems  []*core.Term // append: the appended elements
 	Val    *core.Term   // store: the value
 	Addr   *core.Term   // store: the address written (index / field term)
@@ -41,10 +41,10 @@ type IPath struct {
 }
 
 type inlineOpts struct {
-	pkg   *types.Package // helpers of this package are opened
-	depth int
-	stop  func(f *ssa.Function) bool // never open these (their call stays an event)
-	maxDepth int // helpers are opened down to this nesting depth (default 3)
+	pkg      *types.Package // helpers of this package are opened
+	depth    int
+	stop     func(f *ssa.Function) bool // never open these (their call stays an event)
+	maxDepth int                        // helpers are opened down to this nesting depth (default 3)
 	// opaque: after looking at the helper's own inlined paths, keep its call opaque all the same
 	opaque func(h *ssa.Function, inner []IPath) bool
 	// openAll: helpers of every package of the module are opened, not only those of pkg
